@@ -16,6 +16,9 @@ P = "architecture_simulator/"
 RULE_PROP_OVERRIDE = {
     "R01.done": "C13",
 }
+RULE_RENAME = {
+    "R01.done": "R13.done",
+}
 
 
 def V(id, prop, rule, expect, file, old, new, **kw):
@@ -40,6 +43,7 @@ def _round0() -> list[dict]:
             continue
         expect = "fire" if exp == "fire" else "silent"
         prop = RULE_PROP_OVERRIDE.get(rule) or ("C" + rule[1:3])
+        rule = RULE_RENAME.get(rule, rule)
         out.append({"id": x["id"], "prop": prop, "rule": None if expect == "silent" or rule.endswith("*") else rule,
                     "expect": expect, "file": x["file"], "old": x["old"], "new": x["new"],
                     "pinned_suite": x.get("pinned_suite")})
